@@ -388,6 +388,7 @@ func cmdClaim(args []string) int {
 		fmt.Fprintln(os.Stderr, err)
 		return 2
 	}
+	noReseed = true
 	out := runProperty(w, prop, 3, 60, nil)
 	var names []string
 	var slowNames []string
